@@ -119,6 +119,9 @@ def run(ctx: core.Ctx) -> int:
         for g in by_cls1.get(m[ident], []):
             cases += make_cases([g], rnd, 1, len(cases) + 1, ctx.seed, sweep=ident)
     ctx.notes["identifiers_continuing_another_identifier"] = special
+    for k_, c_ in enumerate(cases):
+        if k_ % 3 == 1 and not c_.get("git"):
+            c_["twins"] = True
     events = ctx.pmap(projmodel.run_project_case, cases, chunksize=16)
     for ev in events[:: max(1, len(events) // 4)][:4]:
         o = ev["obs"]
